@@ -187,6 +187,7 @@ def decModIsZero (a b : Dec) : Except Exn Bool :=
 def modIsZero (v f : PyVal) : Except Exn Bool :=
   match v.unsub, f.unsub with
   | .decimal a, .decimal b => decModIsZero a b
+  | .float .nan, .float (.fin _ m _) => if m == 0 then .error .zeroDivision else .ok false   -- `nan % 0.0` raises too
   | .float .nan, .float _ => .ok false
   | .float _, .float .nan => .ok false
   | .float (.inf _), .float (.fin _ m _) => if m == 0 then .error .zeroDivision else .ok false
